@@ -37,7 +37,7 @@ Keys == <<IK(0), IK(1), IK(2), IK(3), SK("a"), SK("b"), SK("k"), SK("z")>>
 \* the value token of a key says where it came from, so a binding shows which key landed where
 Tok(key) == IF IsInt(key) THEN "i" \o ToString(key.n) ELSE "s" \o key.s
 
-SortedIdx(S) == CHOOSE s \in [1..Cardinality(S) -> S] : \A i, j \in 1..Cardinality(S) : i < j => s[i] < s[j]
+SortedIdx(S) == [i \in 1..Cardinality(S) |-> CHOOSE x \in S : Cardinality({y \in S : y < x}) = i - 1]
 WrittenOf(S) == LET idx == SortedIdx(S) IN [i \in 1..Cardinality(S) |-> Arg(Keys[idx[i]], Tok(Keys[idx[i]]))]
 
 \* ---- the machine --------------------------------------------------------
@@ -88,6 +88,8 @@ Inv_SigsWellFormed == \A i \in 1..Len(Sigs) : WellFormedSig(Sigs[i])
 \* the antecedents are reachable (checked as ~Witness): a gap bound by name next to *args overflow
 Witness == /\ phase = "done" /\ kind = "call" /\ ~out.err /\ res.kwp # {} /\ Len(res.p) >= 1
            /\ \E e \in out.b : Len(e.t) >= 1
+
+NotWitness == ~Witness
 
 \* ---- behaviours for replay: one JSON line per terminal state -------------
 OutJ(o) == [err |-> o.err, b |-> o.b, pa |-> o.pa, pk |-> o.pk]
